@@ -55,6 +55,7 @@ void DoAction(Scen &sc, User &u, std::string const &a)
     u.sock.emplace(SocketUdpBuffered(SocketUdp(Address("127.0.0.1:0")), 0, 64), *sc.driver,
       [up](BufferPtr, Address) {
         sched::mark("handler " + up->name + " enter");
+        sched::yield("in-handler"); // let other threads run while the handler is in progress
         ++up->handled;
         sched::mark("handler " + up->name + " exit");
       });
@@ -77,6 +78,7 @@ void DoAction(Scen &sc, User &u, std::string const &a)
     bool stop = (name == "todostop");
     u.todo.emplace(*sc.driver, [up, scp, stop]() {
       sched::mark("task " + up->name + " enter");
+      sched::yield("in-task"); // let other threads run while the task is in progress
       ++up->taskRuns;
       if(stop) {
         sched::mark("begin " + up->name + " stop-in-task");
@@ -92,6 +94,8 @@ void DoAction(Scen &sc, User &u, std::string const &a)
   } else if(name == "waittask") {
     auto *up = &u;
     sched::wait_until("task " + u.name, [up]() { return up->taskRuns.load() > 0; });
+  } else if(name == "yield") {
+    sched::yield("user");
   } else if(name == "stop") {
     sc.driver->Stop();
   } else if(name == "waitothers") {
@@ -128,6 +132,7 @@ int main()
         sc.drvMode = w[1];
         if(w[1] == "steps") { sc.drvSteps = std::stoi(w[2]); sc.drvTimeout = std::stol(w[3]); }
         if(w[1] == "runs") { sc.drvSteps = std::stoi(w[2]); }
+        if(w[1] == "stepsrun") { sc.drvSteps = std::stoi(w[2]); sc.drvTimeout = std::stol(w[3]); }
       } else if(w[0] == "usr") {
         auto u = std::make_unique<User>();
         u->name = w[1];
@@ -143,7 +148,17 @@ int main()
         sched::name_fd(impl.pipeFrom.fd, "pipefrom");
         auto *scp = &sc;
         sched::spawn("drv", [scp]() {
-          if(scp->drvMode == "run" || scp->drvMode == "runs") {
+          if(scp->drvMode == "stepsrun") {
+            for(int i = 0; i < scp->drvSteps; ++i) {
+              sched::mark("step-enter");
+              scp->driver->Step(Duration(scp->drvTimeout));
+              sched::mark("step-exit");
+            }
+            sched::mark("run-enter");
+            scp->driver->Run();
+            sched::mark("run-exit");
+            ++scp->runReturned;
+          } else if(scp->drvMode == "run" || scp->drvMode == "runs") {
             int n = scp->drvMode == "runs" ? scp->drvSteps : 1;
             for(int i = 0; i < n; ++i) {
               sched::mark("run-enter");
